@@ -13,7 +13,7 @@
        -> V = Z_H t -> V vanishes on H                            (C09_identity_at_zeta_bound,
                                                                    C09_quotient_chunks_recombine, C09_quotient_check_true) *)
 From Coq Require Import ZArith List Bool Lia.
-From Verif Require Import Base.Field Base.Poly Model.Stark Proofs.Stark.
+From Verif Require Import Base.Field Base.Poly Model.Stark Proofs.Stark Proofs.Quotient.
 Import ListNotations.
 Local Open Scope field_scope.
 
@@ -108,6 +108,14 @@ Section C09.
         exists v, nth_error van j = Some v /\
           v = (fpow zeta (2 ^ log_n) - 1) * peval ck (fpow zeta (2 ^ log_n)).
   Proof. exact quotient_check_true. Qed.
+
+  (* completeness kernel: if the combined constraint polynomial (any number of coefficients)
+     vanishes on every row g^i of the trace domain, the division by Z_H = X^n - 1 is exact and the
+     quotient has at most  length p - n  coefficients (what compute_quotient_polys relies on) *)
+  Theorem C09_quotient_exists : forall (g : F) (n : nat) (p : list F),
+    (0 < n)%nat -> prim_root g n -> (forall i, (i < n)%nat -> peval p (fpow g i) = 0) ->
+    exists q : list F, (length q <= length p - n)%nat /\ forall x, peval p x = (fpow x n - 1) * peval q x.
+  Proof. exact prim_root_vanishing_divisible. Qed.
 End C09.
 
 (* ---------------------------------------------------------------------------------------------
